@@ -12,12 +12,15 @@ import (
 	"path/filepath"
 	"sort"
 	"strings"
+	"sync"
 
 	"verif/internal/fsguard"
 	"verif/internal/gen"
 	"verif/internal/gitx"
 	"verif/internal/obs"
 )
+
+var importMu sync.Mutex
 
 // Base is an imported history. Commit i is reachable as branch c<i>.
 type Base struct {
@@ -37,7 +40,9 @@ func NewBase(g *gitx.Git, r *rand.Rand, dir string, o gen.HistOpts) (*Base, erro
 	if err := g.Init(dir, false, "sha1"); err != nil {
 		return nil, err
 	}
+	importMu.Lock() // gitx.Import names its marks file after the call counter: not safe concurrently
 	ids, err := g.Import(dir, h)
+	importMu.Unlock()
 	if err != nil {
 		return nil, err
 	}
